@@ -679,6 +679,110 @@ def refcoll_race(chk):
     chk.cov["refcoll_schedules"] = n
 
 
+class _PreemptAt(object):
+    """scheduling policy: thread `first` runs until it is about to execute source line `point`; then `other` runs to its end;
+    then whoever can"""
+
+    def __init__(self, first, other, point):
+        self.first, self.other, self.point = first, other, point
+        self.switched = False
+        self.hit = False
+
+    def choose(self, sched, choices):
+        by = {c[0]: c for c in choices}
+        if not self.switched:
+            f = by.get(self.first)
+            if f is not None:
+                op = self.first.pending
+                if getattr(op, "kind", None) == "line" and tuple(op.info or ()) == tuple(self.point):
+                    self.switched = True
+                    self.hit = True
+                else:
+                    return f
+            elif self.first.done:
+                self.switched = True
+        if self.other in by and not self.other.done:
+            return by[self.other]
+        if self.first in by:
+            return by[self.first]
+        return choices[0]
+
+
+def unbox_drop_races(chk):
+    """the holder is used by two threads: its serving thread unboxes a fresh reference to k while the program drops its last
+    handle on k's proxy - at every source line of _unbox / _netref_factory.  The fresh reference must arrive as a live proxy
+    and nothing may leak."""
+    import rpyc
+    from rpyc.core.protocol import Connection
+    funcs = [Connection._unbox, Connection._netref_factory]
+    points = []
+    for f in funcs:
+        c = f.__code__
+        for (_, _, ln) in c.co_lines():
+            if ln is not None and ln != c.co_firstlineno:
+                points.append((c.co_name, ln - c.co_firstlineno))
+    points = sorted(set(points))
+    n = hit = 0
+    for fresh in (False, True):
+        for pt in points:
+            fx = Fixture(["k1"], fresh)
+            lines = None
+            try:
+                apply_action(fx, "Send", "k1")
+                while fx.stream_msgs(fx.net.a) or fx.stream_msgs(fx.net.b):
+                    for act, st in (("DeliverToHolder", fx.net.a), ("DeliverToOwner", fx.net.b)):
+                        if fx.stream_msgs(st):
+                            apply_action(fx, act)
+                if len(fx.held["k1"]) != 1:
+                    raise tlc.MachineryError("setup: the holder has no proxy")
+                apply_action(fx, "Send", "k1")             # a fresh reference is in flight
+                lines = sim.LineYields(fx.sched, funcs)
+                lines.__enter__()
+                def drop_one():
+                    del fx.held["k1"][0]                   # the one handle the program has so far
+                dropper = fx.sched.spawn("dropper", drop_one)
+                fx.net.deliver(fx.net.a)                   # the holder's serving thread starts unboxing
+                pol = _PreemptAt(fx.h_srv, dropper, pt)
+                try:
+                    fx.sched.run(pol, until=fx.sched.quiescent, max_steps=20000)
+                except sim.Deadlock:
+                    pass
+                lines.__exit__()
+                lines = None
+                if dropper in fx.sched.threads and dropper.done:
+                    fx.sched.threads.remove(dropper)
+                    for i, x in enumerate(fx.sched.threads):
+                        x.idx = i
+                n += 1
+                hit += 1 if pol.hit else 0
+                chk.evaluated()
+                chk.distinct(("unbox-drop", fresh, pt))
+                hist = ["Send(k1)", "deliver", "Send(k1)", "unboxing stopped before %s+%d while the program drops its proxy" % pt]
+                # let everything settle, then judge
+                for _ in range(20):
+                    moved = False
+                    for act, st in (("DeliverToOwner", fx.net.b), ("DeliverToHolder", fx.net.a)):
+                        while fx.stream_msgs(st):
+                            apply_action(fx, act)
+                            moved = True
+                    if not moved:
+                        break
+                bad = [b for b in oracle(fx, "Race", None, None, len(fx.touched))]
+                if not fx.held["k1"] and not bad:
+                    bad.append(("reference-lost", "the fresh reference to k1 did not arrive as a proxy (the holder has none)"))
+                for key, msg in bad:
+                    chk.violation("race:" + key, "C10 [holder used by two threads, %s objects] %s (history: %s)" % (
+                        "user-class" if fresh else "built-in", msg, hist), {"mode": "unbox-drop", "fresh": fresh, "point": list(pt)})
+                if not bad:
+                    drain(chk, fx, hist, ["k1"])
+                    chk.validated()
+            finally:
+                if lines is not None:
+                    lines.__exit__()
+                fx.teardown()
+    chk.cov["unbox_drop_races"] = {"runs": n, "window_reached": hit}
+
+
 def both_directions(chk):
     """the same object lent in both directions between two ends in one process, class queries in between (the history in which
     a release notice for a reference never handed out was found): every proxy must stay usable"""
@@ -780,6 +884,7 @@ def main():
     suite_traces.validate_refs(chk, PID, chans, "%d test files: %s" % (len(files), summary))
     both_directions(chk)
     refcoll_race(chk)
+    unbox_drop_races(chk)
     chk.assumptions += [
         "CPython reference counting runs proxy finalizers at the moment the last handle is dropped (automatic GC is off)",
         "frames are delivered whole and in order per direction; the harness chooses when each direction advances",
